@@ -2,6 +2,7 @@ import IpaVerif.Model.Dzkp
 import IpaVerif.Props.C08
 import IpaVerif.Proofs.C03Indices
 import IpaVerif.Proofs.C03Gate
+import IpaVerif.Proofs.C03Store
 /-!
 # C03 — multiplication proofs accept honest batches and reject any altered one
 
@@ -64,7 +65,7 @@ theorem e_bits (B : Block) (j : Nat) :
       ((B.xr.testBit j && B.yr.testBit j) ^^ B.pr.testBit j ^^ B.zr.testBit j) := by
   simp [Nat.testBit_xor, Nat.testBit_and]
 
-/-- **gate_views** (single gate, exhaustive over the 2^9 gate states, 3 helpers, 8 single-bit deviations):
+/-- **gate_views** (single gate: every gate state, 3 helpers, 8 single-bit deviations):
 
 * honest execution: each prover's `(u, v)` table indices equal what its left verifier (u) and right
   verifier (v) recompute from their own records, the verifiers' triple satisfies `e′ = ab ⊕ cd ⊕ f`, and
@@ -79,20 +80,46 @@ theorem gate_views (g : Gate) :
     (∀ j f h, rejects (views g (some (j, f))) h = true ↔ h ∈ predictedRejecters j f) ∧
     (∀ j f, predictedRejecters j f ≠ []) ∧
     (∀ j f, f ∉ [Flip.pl, Flip.zr] → j.prev ∈ predictedRejecters j f) := by
-  refine ⟨?_, ?_, ?_, ?_⟩
-  · intro i
-    have h := honest_all (g.x .h0) (g.x .h1) (g.x .h2) (g.y .h0) (g.y .h1) (g.y .h2) (g.p .h0) (g.p .h1) (g.p .h2)
-    rw [← gate_eq_mkGate g] at h
-    have := hid_all _ h i
-    simp only [Bool.and_eq_true, Bool.not_eq_true'] at this
-    exact ⟨this.1.1, this.1.2, this.2⟩
+  refine ⟨fun i => honest_sym g i, ?_, ?_, ?_⟩
   · intro j f h
-    have hc := hid_all _ (hid_all _ (flip_all f g) j) h
-    rw [← hid_mem_iff]
-    cases hr : rejects (views g (some (j, f))) h <;> cases hm : Hid.mem h (predictedRejecters j f) <;>
-      simp [hr, hm] at hc ⊢
+    rw [flip_sym, hid_mem_iff]
   · intro j f; cases f <;> simp [predictedRejecters]
   · intro j f hf; cases f <;> simp [predictedRejecters] at hf ⊢
+
+
+/-- **segment_packing**: for each of the seven stored intermediates, every previous store content, every
+record id and every global bit position `n`:
+
+* a segment of width `1 ≤ w < 256` is written at stride `L = next_power_of_two(w)`: afterwards bit `n` is the
+  segment's bit `n − L·id` if `L·id ≤ n < L·id + w` and is unchanged otherwise; the segment never crosses a
+  256-bit block boundary;
+* a segment of width `w = 256·m` occupies exactly bits `[w·id, w·id + w)` (whole blocks), everything else is
+  unchanged (bits of freshly allocated blocks are zero);
+* ranges of different record ids are disjoint (stride ≥ width), so pushes in any order never overwrite one
+  another. Out-of-range record ids panic in the model (`Store.insert`) as in the code (compared by `c03_store`). -/
+theorem segment_packing :
+    (∀ p ∈ fieldPairs, ∀ (vec : List Block) (id : Nat) (s : IpaVerif.DzkpStore.Segment) (n : Nat),
+      s.width < 256 → 1 ≤ s.width →
+      IpaVerif.DzkpStore.storeBit (IpaVerif.DzkpStore.insertSmall vec id s) p.1 n =
+        if IpaVerif.DzkpStore.nextPow2 s.width * id ≤ n ∧ n < IpaVerif.DzkpStore.nextPow2 s.width * id + s.width
+        then (p.2 s).testBit (n - IpaVerif.DzkpStore.nextPow2 s.width * id)
+        else IpaVerif.DzkpStore.storeBit vec p.1 n) ∧
+    (∀ w id : Nat, w < 256 → 1 ≤ w → (IpaVerif.DzkpStore.nextPow2 w * id) % 256 + w ≤ 256 ∧ w ≤ IpaVerif.DzkpStore.nextPow2 w) ∧
+    (∀ p ∈ fieldPairs, ∀ (vec : List Block) (id m : Nat) (s : IpaVerif.DzkpStore.Segment) (n : Nat),
+      s.width = 256 * m →
+      IpaVerif.DzkpStore.storeBit (IpaVerif.DzkpStore.insertLarge vec id s) p.1 n =
+        if s.width * id ≤ n ∧ n < s.width * id + s.width then (p.2 s).testBit (n - s.width * id)
+        else IpaVerif.DzkpStore.storeBit vec p.1 n) ∧
+    (∀ L w i j n : Nat, w ≤ L → i ≠ j → (L * i ≤ n ∧ n < L * i + w) → ¬ (L * j ≤ n ∧ n < L * j + w)) := by
+  refine ⟨?_, ?_, ?_, ?_⟩
+  · intro p hp vec id s n hw h1
+    exact insertSmall_bits p.1 p.2 (fieldPairs_ok p hp).1 vec id s hw h1 n
+  · intro w id hw h1
+    exact ⟨no_crossing w id hw h1, (nextPow2_small w hw h1).1⟩
+  · intro p hp vec id m s n hw
+    exact insertLarge_bits p.1 p.2 (fieldPairs_ok p hp).1 (fieldPairs_ok p hp).2 vec id m s hw n
+  · intro L w i j n hL hij hi
+    exact ranges_disjoint L w i j n hL hij hi
 
 /-- a consistent gate contributes `−1/2`, an inconsistent one `+1/2` (`table_identity`). -/
 def gateTerm (c : Bool) : Nat := if c then minusOneHalf else inverseOfTwo
